@@ -72,6 +72,10 @@ pub fn reset_slots() {
     mc::verif::reset_slots();
 }
 
+pub fn set_tick_seams(on: bool) {
+    mc::verif::set_tick_seams(on);
+}
+
 pub fn ticks() -> u64 {
     mc::verif::ticks() as u64
 }
@@ -82,6 +86,7 @@ pub fn abi_check() {
     assert_eq!(v::SITE_BEFORE_STORE, world::SITE_BEFORE_STORE);
     assert_eq!(v::SITE_AFTER_STORE, world::SITE_AFTER_STORE);
     assert_eq!(v::SITE_AFTER_LOAD, world::SITE_AFTER_LOAD);
+    assert_eq!(v::SITE_TICK, world::SITE_TICK);
     assert_eq!(v::FEATURE_SSE2, world::FEATURE_SSE2);
     assert_eq!(v::FEATURE_AVX2, world::FEATURE_AVX2);
     assert_eq!(v::BACKEND_FALLBACK, world::BACKEND_FALLBACK);
@@ -1762,7 +1767,7 @@ pub fn run_tasks(w: &'static World, ep: Arc<Episode>) -> Vec<Vec<Res>> {
     let mut main_ctx = TaskCtx::new(100, 0);
     let prev = world::set_ctx(&mut main_ctx as *mut TaskCtx);
     // S2: process history
-    let warm_mask: u8 = match ep.env.dispatch {
+    let warm_mask: u8 = match w.env.dispatch {
         Dispatch::Fresh => 0,
         Dispatch::Warm => 0x7f,
         Dispatch::Partial(m) => m & 0x7f,
